@@ -37,8 +37,11 @@ WRAPS = ["select", "read", "write", "close", "open", "ioctl", "fcntl", "socket",
 
 SAN = ["-fsanitize=address,undefined", "-fno-sanitize=shift-base", "-fno-sanitize-recover=undefined",
        "-fno-omit-frame-pointer", "-fno-common"]
+# a build flavour: extra compiler flags that stand for another platform (e.g. -funsigned-char: ARM / PowerPC Linux,
+# where plain char is unsigned); the flavour is part of the build directory's name
+EXTRA = os.environ.get("VERIF_CFLAGS_EXTRA", "").split()
 BASEFLAGS = ["-std=c99", "-g", "-D_GNU_SOURCE", "-DLINUX", "-D" + GUARD,
-             '-DGITREVISION="verif"', "-w"]
+             '-DGITREVISION="verif"', "-w"] + EXTRA
 
 
 def tree_hash():
@@ -51,6 +54,7 @@ def tree_hash():
                     continue  # generated
                 files.append(os.path.join(d, fn))
     files.append(os.path.abspath(__file__))
+    h.update(" ".join(EXTRA).encode())
     for f in files:
         h.update(f.encode())
         with open(f, "rb") as fh:
@@ -154,10 +158,10 @@ def build(dest):
                     "fw_query"] + extra
             wl = ["-Wl," + ",".join("--wrap=" + w for w in wraps)] if wraps else []
             plain = [os.path.join(dest, "fn", m + ".o") for m in mods]
-            run(["clang", "-std=gnu99", "-O2", "-g", "-D_GNU_SOURCE", "-DLINUX", '-DGITREVISION="verif"', "-w", "-I" + SRC,
+            run(["clang", "-std=gnu99", "-O2", "-g", "-D_GNU_SOURCE", "-DLINUX", '-DGITREVISION="verif"', "-w"] + EXTRA + ["-I" + SRC,
                  "-I" + dest, os.path.join(hd, fn)] + parts + ["-o", os.path.join(dest, name)] + plain + wl + ["-lz"])
             sanobjs = [p.replace("/fn/", "/fnsan/") for p in plain]
-            run(["clang", "-std=gnu99", "-O1", "-g", "-D_GNU_SOURCE", "-DLINUX", '-DGITREVISION="verif"', "-w", "-I" + SRC,
+            run(["clang", "-std=gnu99", "-O1", "-g", "-D_GNU_SOURCE", "-DLINUX", '-DGITREVISION="verif"', "-w"] + EXTRA + ["-I" + SRC,
                  "-I" + dest] + SAN + [os.path.join(hd, fn)] + parts + ["-o", os.path.join(dest, name + "_san")]
                 + sanobjs + wl + ["-lz"])
 
